@@ -45,6 +45,7 @@ func init() {
 			"M9 a decoded map's key is joined into a path only behind IsLegalUnixFilename(key) == nil; M10 a loop collecting the keys of a decoded map collects every key. " +
 			"M11 copyOutSymlink writes no value derived from GetOutFilename(); M12 readers of ArrayType.Elem in post-processing also read Dim; M13 after processStructOuts the value passed in is neither returned nor stored as the element's record. " +
 			"M1 (round 8): strconv.Quote is not accepted as a JSON encoder. " +
+			"M14 every store to StructType.isFile in StructMember.compile is dominated by a comparison reading its current value. " +
 			"NOT decided: file contents, which files exist, symlink arithmetic (relative paths), that the hand-assembled JSON is valid beyond these conditions, display output.",
 		Assumptions: append([]string{
 			"values of static type json.RawMessage hold JSON text (they come from json.Unmarshal into RawMessage-based containers or from encoders); a conversion of a string to json.RawMessage is reported",
@@ -440,6 +441,7 @@ func runC13(c *an.Ctx) {
 	ruleM11(s)
 	ruleM12(s)
 	ruleM13(s)
+	ruleM14(s.c)
 	ruleM6(c)
 }
 
